@@ -182,4 +182,139 @@ theorem exprArgs_inv (args : List InstantiationArgument) (hw : wfArgs args = tru
       exact h3.cast rfl (by simp [kw, ellipsis, comma])
 end
 
+/-! ### statements -/
+
+/-- the name of an `import … as name` / `export … as name` -/
+theorem externName_inv (n : ExternName) (hw : n.wf = true) {p : PS} {ts : List PTok}
+    (h : Inv p ts [] sAny) :
+    Inv (p.write (externNameSrc n)) (ts ++ [PrintTok.externName n]) [] stopW := by
+  cases n with
+  | Ident id =>
+    have hw' : id.wf = true := by simpa [ExternName.wf] using hw
+    exact (h.ident id hw' wordOK_sAny).cast (by simp [externNameSrc])
+      (by simp [PrintTok.externName, PrintTok.ident])
+  | String s =>
+    have hw' : s.wf = true := by simpa [ExternName.wf] using hw
+    exact (stopW_le_sAny (h.str s hw' (fun _ => rfl))).cast (by simp [externNameSrc])
+      (by simp [PrintTok.externName, PrintTok.string])
+
+theorem letStatement_inv (s : LetStatement) (hw : s.wf = true) {p : PS} {ts : List PTok}
+    (h : Inv p ts [] sAny) :
+    Inv (Print.letStatement p s) (ts ++ PrintTok.letStatement s) [] sAny := by
+  have hw' : s.id.wf = true ∧ s.expr.wf = true := by simpa [LetStatement.wf] using hw
+  have h1 := ((h.docs s.docs).indent.lit_let_sp wordOK_sAny).ident s.id hw'.1 wordOK_sAny
+  have h2 := h1.lit_eq (fun _ => rfl)
+  have h3 := expr_inv s.expr hw'.2 h2 wordOK_sAny (fun _ => rfl)
+  have h4 := h3.lit_semi (fun _ => rfl)
+  exact h4.cast (by simp [Print.letStatement])
+    (by simp [PrintTok.letStatement, dkw, kw, semi, PrintTok.ident])
+
+theorem exportStatement_inv (s : ExportStatement) (hw : s.wf = true) {p : PS} {ts : List PTok}
+    (h : Inv p ts [] sAny) :
+    Inv (Print.exportStatement p s) (ts ++ PrintTok.exportStatement s) [] sAny := by
+  have hw' : s.expr.wf = true ∧ s.options.wf = true := by simpa [ExportStatement.wf] using hw
+  have h1 := (h.docs s.docs).indent.lit_export_sp wordOK_sAny
+  have h2 := expr_inv s.expr hw'.1 h1 wordOK_sAny (fun _ => rfl)
+  unfold Print.exportStatement PrintTok.exportStatement
+  cases hk : s.options with
+  | None =>
+    have h3 := h2.lit_semi (fun _ => rfl)
+    exact h3.cast (by simp) (by simp [dkw, kw, semi])
+  | Spread sp =>
+    have h3 := (h2.lit_ellipsis (fun _ => rfl)).lit_semi (fun _ => rfl)
+    exact h3.cast (by simp) (by simp [dkw, kw, semi, ellipsis])
+  | Rename n =>
+    have hn : n.wf = true := by have := hw'.2; rw [hk] at this; simpa [ExportOptions.wf] using this
+    have h3 := externName_inv n hn (h2.lit_as (fun _ => rfl))
+    have h4 := h3.lit_semi (fun _ => rfl)
+    exact h4.cast (by simp) (by simp [dkw, kw, semi])
+
+/-- the package directive, at the start of the document (`ds`: the document's doc comments) -/
+theorem packageDirective_inv (ds : List DocComment) (d : PackageDirective) (hw : d.wf = true) :
+    Inv (Print.packageDirective (Print.docs ⟨[], 0, false⟩ ds) d) (PrintTok.packageDirective ds d)
+      [] sAny := by
+  have hw' := hw
+  simp only [PackageDirective.wf, Bool.and_eq_true] at hw'
+  have h1 := (Inv.init.docs ds).indent.lit_package_sp wordOK_sAny
+  have h2 := h1.pkgName d.package hw'.1 wordOK_sAny
+  unfold Print.packageDirective PrintTok.packageDirective
+  cases hk : d.targets with
+  | none =>
+    have h3 := (h2.lit_semi_nl (fun _ => rfl)).nl (fun _ => rfl)
+    exact h3.cast (by simp) (by simp [dkw, kw, semi, PrintTok.packageName])
+  | some t =>
+    have ht : t.wf = true := by have := hw'.2; rw [hk] at this; simpa using this
+    have h3 := (h2.lit_targets (fun _ => rfl)).pkgPath t ht wordOK_sAny
+    have h4 := (h3.lit_semi_nl (fun _ => rfl)).nl (fun _ => rfl)
+    exact h4.cast (by simp [Print.packagePath])
+      (by simp [dkw, kw, semi, PrintTok.packageName, PrintTok.packagePath])
+
+/-- `import_statement`, given the lemma for the import type -/
+theorem importStatement_inv (s : ImportStatement) (hw : s.wf = true)
+    (hty : ∀ {p : PS} {ts : List PTok}, Inv p ts [] sAny →
+      Inv (Print.importType p s.ty) (ts ++ PrintTok.importType s.ty) [] stopWP)
+    {p : PS} {ts : List PTok} (h : Inv p ts [] sAny) :
+    Inv (Print.importStatement p s) (ts ++ PrintTok.importStatement s) [] sAny := by
+  have hw' := hw
+  simp only [ImportStatement.wf, Bool.and_eq_true] at hw'
+  have h1 := ((h.docs s.docs).indent.lit_import_sp wordOK_sAny).ident s.id hw'.1.1 wordOK_sAny
+  unfold Print.importStatement PrintTok.importStatement
+  cases hk : s.name with
+  | none =>
+    have h2 := h1.lit_colon_sp (fun _ hr => hr)
+    have h3 := (hty h2).lit_semi (fun _ => rfl)
+    exact h3.cast (by simp) (by simp [dkw, kw, semi, colon, PrintTok.ident])
+  | some n =>
+    have hn : n.wf = true := by have := hw'.1.2; rw [hk] at this; simpa using this
+    have h2 := externName_inv n hn (h1.lit_as (fun _ => rfl))
+    have h3 := h2.lit_colon_sp (fun _ hr => hr)
+    have h4 := (hty h3).lit_semi (fun _ => rfl)
+    exact h4.cast (by simp) (by simp [dkw, kw, semi, colon, PrintTok.ident])
+
+/-- `statement`, given the lemmas for import types and for type statements -/
+theorem statement_inv (s : Statement) (hw : s.wf = true)
+    (hty : ∀ (t : ImportType), t.wf = true → ∀ {p : PS} {ts : List PTok}, Inv p ts [] sAny →
+      Inv (Print.importType p t) (ts ++ PrintTok.importType t) [] stopWP)
+    (hts : ∀ (t : TypeStatement), t.wf = true → ∀ {p : PS} {ts : List PTok}, Inv p ts [] sAny →
+      Inv (Print.typeStatement p t) (ts ++ PrintTok.typeStatement t) [] sAny)
+    {p : PS} {ts : List PTok} (h : Inv p ts [] sAny) :
+    Inv (Print.statement p s) (ts ++ PrintTok.statement s) [] sAny := by
+  cases s with
+  | Import s =>
+    have hw' : s.wf = true := by simpa [Statement.wf] using hw
+    have hs : s.ty.wf = true := by
+      have := hw'; simp only [ImportStatement.wf, Bool.and_eq_true] at this; exact this.2
+    exact importStatement_inv s hw' (fun h' => hty s.ty hs h') h
+  | Type' s => exact hts s (by simpa [Statement.wf] using hw) h
+  | Let s => exact letStatement_inv s (by simpa [Statement.wf] using hw) h
+  | Export s => exact exportStatement_inv s (by simpa [Statement.wf] using hw) h
+
+/-- the loop over the statements of a document -/
+theorem statements_inv (stmts : List Statement)
+    (hst : ∀ s ∈ stmts, ∀ (p : PS) (ts : List PTok), Inv p ts [] sAny →
+      Inv (Print.statement p s) (ts ++ PrintTok.statement s) [] sAny)
+    {p : PS} {ts : List PTok} (h : Inv p ts [] sAny) :
+    Inv (Print.separated p Print.statement stmts) (ts ++ stmts.flatMap PrintTok.statement) [] sAny :=
+  separated_inv Print.statement PrintTok.statement stmts hst h
+
+/-- the document: the lexer reads the printed text as the tokens of the token-level printer -/
+theorem layout_tokens_of (d : Document) (hd : d.directive.wf = true)
+    (hst : ∀ s ∈ d.statements, ∀ (p : PS) (ts : List PTok), Inv p ts [] sAny →
+      Inv (Print.statement p s) (ts ++ PrintTok.statement s) [] sAny) :
+    Wac.PrintTok.tokenizeE (Print.document d) = Wac.PrintTok.printTokens d := by
+  have h1 := packageDirective_inv d.docs d.directive hd
+  have h2 := statements_inv d.statements hst h1
+  exact h2.final rfl
+
+/-- the document, given the lemmas for import types and for type statements -/
+theorem layout_tokens_of_wf (d : Document) (hw : d.wf = true)
+    (hty : ∀ (t : ImportType), t.wf = true → ∀ {p : PS} {ts : List PTok}, Inv p ts [] sAny →
+      Inv (Print.importType p t) (ts ++ PrintTok.importType t) [] stopWP)
+    (hts : ∀ (t : TypeStatement), t.wf = true → ∀ {p : PS} {ts : List PTok}, Inv p ts [] sAny →
+      Inv (Print.typeStatement p t) (ts ++ PrintTok.typeStatement t) [] sAny) :
+    Wac.PrintTok.tokenizeE (Print.document d) = Wac.PrintTok.printTokens d := by
+  have hw' : d.directive.wf = true ∧ ∀ s ∈ d.statements, s.wf = true := by
+    simpa [Document.wf, List.all_eq_true] using hw
+  exact layout_tokens_of d hw'.1 (fun s hs p ts h => statement_inv s (hw'.2 s hs) hty hts h)
+
 end Wac.Lemmas.PrinterLayout
